@@ -596,6 +596,39 @@ def _on_instruction(code, offset):
     return None
 
 
+_LINE_CODES = set()
+
+
+def add_line_points(*functions):
+    """Make every source line of the given functions (of the tree under
+    test) a scheduling point while a window is open - for code whose shared
+    accesses the attribute scan cannot see (getattr/setattr with computed
+    names, list methods)."""
+    mon = sys.monitoring
+    for f in functions:
+        code = getattr(getattr(f, '__func__', f), '__code__', None)
+        if code is None or code in _LINE_CODES:
+            continue
+        _LINE_CODES.add(code)
+        cur_ev = mon.get_local_events(_TOOL, code)
+        mon.set_local_events(_TOOL, code, cur_ev | mon.events.LINE)
+
+
+def _on_line(code, line):
+    if code not in _LINE_CODES:
+        return sys.monitoring.DISABLE
+    S = CUR
+    if S is None or not S.tracing or not S.window or S.aborting \
+            or S.in_state_fn:
+        return None
+    me = S.by_ident.get(threading.get_ident())
+    if me is None or me is not S.current:
+        return None
+    S.point('line:%s:%d' % (code.co_name, line))
+    me.dirty = True         # a line may have stored something
+    return None
+
+
 def configure_tracing(conn_module):
     with open(conn_module.__file__) as f:
         _SHARED[0] = shared_names(f.read())
@@ -605,6 +638,7 @@ def configure_tracing(conn_module):
     except ValueError:
         pass
     mon.register_callback(_TOOL, mon.events.INSTRUCTION, _on_instruction)
+    mon.register_callback(_TOOL, mon.events.LINE, _on_line)
     _OFFS.clear()
     n = 0
     for code in _code_objects(conn_module):
